@@ -70,7 +70,7 @@ def check(prop, tier, replay=None):
         violations = []
         for v in viol:
             r = recs[v['id'] - 1]
-            steps = [{k: s[k] for k in ('a', 'upd', 'jobs')} for s in r['steps']]
+            steps = [{k: s.get(k, []) for k in ('a', 'upd', 'jobs', 'edited')} for s in r['steps']]
             violations.append(dict(sig=dict(a=v['a'], fields=sorted(v['fields'])),
                                    replay=dict(property=prop, steps=steps, deviation=v, observed=(r['steps'][v['k'] - 1].get('post') if v['a'] not in ('read', 'snapshot') else v.get('read'))),
                                    text='behaviour %d step %s (%s): %s' % (v['id'], v['k'], v['a'], sorted(v['fields']))))
@@ -85,7 +85,7 @@ def check(prop, tier, replay=None):
         nontriv = sum(1 for r in recs if len(set(s['a'] for s in r['steps'])) == 3)
         cov = dict(states=mc['distinct'], transitions=mc['generated'],
                    traces_validated_against_impl=len(recs) - len(set(v['id'] for v in viol)),
-                   samples=[dict(steps=[{k: s[k] for k in ('a', 'upd', 'jobs')} for s in recs[0]['steps'][:4]], observed_after_step_4=recs[0]['steps'][min(3, len(recs[0]['steps']) - 1)].get('post'))] if recs else [],
+                   samples=[dict(steps=[{k: s.get(k, []) for k in ('a', 'upd', 'jobs', 'edited')} for s in recs[0]['steps'][:4]], observed_after_step_4=recs[0]['steps'][min(3, len(recs[0]['steps']) - 1)].get('post'))] if recs else [],
                    evaluations=len(recs), distinct_nontrivial=nontriv, concurrent_reads_checked=stats.get('reads', 0),
                    rule='one evaluation = one TLC-generated behaviour (updates full or partial, with dropped targets, failing groups and duplicates; explorer '
                         'consumption; reloads adding/removing/keeping jobs) replayed on the real TargetsDiscovery/Explore/ConfigManager, once sequentially (state '
